@@ -798,6 +798,7 @@ func runC12(rec *kit.Recorder, active map[string]bool, c c12Case) error {
 	j.nt = j.old.repoKey() != j.new.repoKey() && len(snaps) >= 2
 
 	j.total = c12Count(oplog, -1)
+	rec.Eval(j.ckey+"|final", j.nt, append([]string{"mode:final"}, j.labels...)...)
 
 	// final-name files only change through intercepted renames / removes
 	prev := finalState(initial)
@@ -817,12 +818,14 @@ func runC12(rec *kit.Recorder, active map[string]bool, c c12Case) error {
 	}
 
 	// ---- every crash point
+	pts := fsx.Points(work, oplog)
 	for i := range snaps {
 		s := &snaps[i]
 		sig, err := j.observe(s.dir, s.final)
 		lab := append([]string{"mode:crash", "op:" + s.op.Kind}, j.labels...)
+		pkey := fmt.Sprintf("%s|crash|%s#%d", j.ckey, pts[s.op.Seq].ID, pts[s.op.Seq].Nth)
 		if err != nil {
-			j.rec.Eval(j.ckey+"|crash|"+s.op.Ident()+fmt.Sprint(s.op.IdentSeq), j.nt, lab...)
+			j.rec.Eval(pkey, j.nt, lab...)
 			j.add(kit.Fail("load-error", "kill before %s: %v", s.op.Ident(), err))
 			continue
 		}
@@ -833,7 +836,7 @@ func runC12(rec *kit.Recorder, active map[string]bool, c c12Case) error {
 		case j.new.repoKey():
 			state = "new"
 		}
-		j.rec.Eval(j.ckey+"|crash|"+s.op.Ident()+fmt.Sprint(s.op.IdentSeq), j.nt, append(lab, "crash-state:"+state)...)
+		j.rec.Eval(pkey, j.nt, append(lab, "crash-state:"+state)...)
 		if strings.Join(sig.Others, "\x01") != strings.Join(j.old.Others, "\x01") {
 			j.add(kit.Fail("other-repository-affected", "kill before %s: other repositories changed: %q, before %q", s.op.Ident(), sig.Others, j.old.Others))
 			continue
@@ -854,7 +857,8 @@ func runC12(rec *kit.Recorder, active map[string]bool, c c12Case) error {
 	// ---- every rename / remove fails once; temp-file creations, too (quick
 	// tier: only the first one per file class, a build costs ~0.1 s)
 	seenClass := map[string]bool{}
-	for _, op := range oplog {
+	for _, pt := range pts {
+		op := pt.Op
 		if !op.Mutating || op.Failed {
 			continue
 		}
@@ -869,7 +873,7 @@ func runC12(rec *kit.Recorder, active map[string]bool, c c12Case) error {
 		default:
 			continue
 		}
-		j.failOnce(root, initial, op)
+		j.failOnce(root, initial, pt)
 	}
 
 	rec.Sample(c, j.nt)
@@ -877,8 +881,8 @@ func runC12(rec *kit.Recorder, active map[string]bool, c c12Case) error {
 }
 
 // failOnce re-runs the new build from the initial state with the operation
-// identified by (Ident, IdentSeq) failing with EIO.
-func (j *c12Judge) failOnce(root, initial string, target fsx.Op) {
+// identified by (ID, Nth) failing with EIO.
+func (j *c12Judge) failOnce(root, initial string, target fsx.Point) {
 	c := j.c
 	work, err := c12Copy(root, initial, "fail")
 	if err != nil {
@@ -886,13 +890,8 @@ func (j *c12Judge) failOnce(root, initial string, target fsx.Op) {
 		return
 	}
 	defer os.RemoveAll(work)
-	id, idSeq := target.Ident(), target.IdentSeq
-	fsx.Start(fsx.Config{FailAt: func(op fsx.Op) error {
-		if op.Ident() == id && op.IdentSeq == idSeq {
-			return syscall.EIO
-		}
-		return nil
-	}})
+	id, idSeq := target.ID, target.Nth
+	fsx.Start(fsx.Config{FailAt: fsx.FailPoint(work, id, idSeq, syscall.EIO)})
 	runErr := kit.Guard(func() error { return c12RunNew(work, c) })
 	oplog := fsx.Stop()
 	var failed *fsx.Op
@@ -901,8 +900,8 @@ func (j *c12Judge) failOnce(root, initial string, target fsx.Op) {
 			failed = &oplog[i]
 		}
 	}
-	lab := append([]string{"mode:fail", "fail:" + target.Kind}, j.labels...)
-	key := j.ckey + "|fail|" + id + fmt.Sprint(idSeq)
+	lab := append([]string{"mode:fail", "fail:" + target.Op.Kind}, j.labels...)
+	key := fmt.Sprintf("%s|fail|%s#%d", j.ckey, id, idSeq)
 	if failed == nil {
 		// the operation did not occur in this run (the order of work differs)
 		j.rec.Eval(key, false, append(lab, "fail-not-reached")...)
